@@ -463,6 +463,11 @@ impl Check for C01 {
         h.str(&case.doc.label);
         h.str(&format!("{:?}", case.faults));
         h.u64(cfg_idx as u64);
+        // the outcome (Ok/Err pattern of all calls, panics, meters) is part of the trace: the
+        // determinism self-check compares it across processes
+        h.u64(r.outcome);
+        h.u64(r.calls);
+        h.u64(r.panics.len() as u64 + 1000 * r.meters.len() as u64);
         rep.trace_hash = h.finish();
         rep.nontrivial = !fired.is_empty() && r.outcome != self.base_outcome[&base_key];
         if rep.nontrivial {
